@@ -50,7 +50,7 @@ def _t01_regen(repo=None):
     else:
         cur = {r["name"]: r for r in json.load(open(os.path.join(root, "build", "trans", "defs%s.json" % sfx)))}
     base = tc.load_baseline()
-    changed = tc.compare(cur, base) if cur else sorted(base)
+    changed = tc.compare(cur, base, only_cur=True) if cur else sorted(n for n in base if base[n].get("proved"))
     # try every equality proof (make -k names all that fail, not only the first)
     coq = os.path.join(root, "coq")
     subprocess.run([os.path.join(coq, "gen_project.sh")], stdout=subprocess.PIPE, stderr=subprocess.PIPE)
